@@ -1218,6 +1218,10 @@ func editedSuiteOps(r *rng) []string {
 			func(c *cfgT) { c.t = true; c.ts = 0 }, func(c *cfgT) { c.t = true; c.ts = -1 }, func(c *cfgT) { c.t = true; c.ts = 60 },
 			func(c *cfgT) { c.q = true; c.challenge = 0 }, func(c *cfgT) { c.challenge = 3 },
 			func(c *cfgT) { c.s = !c.s }, func(c *cfgT) { c.c = !c.c },
+			// enum fields outside their named constants (negative, just above, far above), with the input selected
+			func(c *cfgT) { c.p = true; c.pw = -1 }, func(c *cfgT) { c.p = true; c.pw = 4 }, func(c *cfgT) { c.p = true; c.pw = -1 << 31 }, func(c *cfgT) { c.p = true; c.pw = 1 << 40 },
+			func(c *cfgT) { c.q = true; c.challenge = -1 }, func(c *cfgT) { c.q = true; c.challenge = 7 }, func(c *cfgT) { c.q = true; c.challenge = -1 << 31 }, func(c *cfgT) { c.q = true; c.challenge = 1 << 40 },
+			func(c *cfgT) { c.hash = 255 }, func(c *cfgT) { c.digits = 1 << 40 }, func(c *cfgT) { c.digits = -1 << 40 }, func(c *cfgT) { c.t = true; c.ts = 1 << 40 },
 		}
 		key := genKey(r)
 		ks := hxs(spell(r, key))
@@ -1560,6 +1564,21 @@ func bitFlips(r *rng) []string {
 	bases := []string{"OCRA-1:HOTP-SHA1-6:QN08", "OCRA-1:HOTP-SHA256-8:C-QN10-PSHA1-S064-T1M", "OCRA-1:HOTP-SHA512-10:QN08-PSHA512-T30S",
 		"ocra-1:hotp-sha256-7:c-qn10-psha256-s-t2h", "OCRA-1:HOTP-SHA1-4:C-QN08-PSHA256-S128-T59S"}
 	var out []string
+	// every position of two names with the bytes at which text classes change hands (0x80: first non-ASCII byte and a
+	// lone continuation byte, 0x7f, NUL, the lead bytes of 2- and 4-byte sequences, 0xff), substituted and inserted
+	for _, b := range bases[:2] {
+		for i := 0; i <= len(b); i++ {
+			for _, sub := range []byte{0x80, 0x7f, 0x00, 0xc2, 0xf0, 0xff} {
+				if i < len(b) {
+					m := []byte(b)
+					m[i] = sub
+					out = append(out, "suite "+hx(m))
+				}
+				m := append(append(append([]byte(nil), b[:i]...), sub), b[i:]...)
+				out = append(out, "suite "+hx(m))
+			}
+		}
+	}
 	for _, b := range bases {
 		for i := 0; i < len(b); i++ {
 			for bit := 0; bit < 8; bit++ {
